@@ -322,6 +322,16 @@ func runRaw(g *dag.Graph, ops []string, origin string) {
 		case 'M':
 			items := strings.Split(o[1:], "|")
 			errs := make([]error, len(items))
+			answers := make([][]ocispec.Descriptor, len(items))
+			mayBe := map[int]bool{} // present before the block or indexed inside it
+			for i := range present {
+				mayBe[i] = true
+			}
+			for _, it := range items {
+				if i, cerr := strconv.Atoi(it[1:]); cerr == nil && it[0] == 'i' && i >= 0 && i < len(g.Nodes) {
+					mayBe[i] = true
+				}
+			}
 			var wg sync.WaitGroup
 			start := make(chan struct{})
 			for k, it := range items {
@@ -339,7 +349,7 @@ func runRaw(g *dag.Graph, ops []string, origin string) {
 					case 'r':
 						mem.Remove(g.Nodes[i].Desc)
 					case 'q':
-						mem.Predecessors(ctx, g.Nodes[i].Desc)
+						answers[k], _ = mem.Predecessors(ctx, g.Nodes[i].Desc)
 					}
 				}(k, it[0], i)
 			}
@@ -364,6 +374,26 @@ func runRaw(g *dag.Graph, ops []string, origin string) {
 					}
 				case 'r':
 					delete(present, i)
+				case 'q':
+					// an answer given while other operations run: never a node that does not reference
+					// the queried one or that was neither present nor being indexed, never twice
+					_, ids, unk := u.showDescs(answers[k])
+					seen := map[int]bool{}
+					for _, p := range ids {
+						refs := false
+						for _, sc := range g.Nodes[p].Succ {
+							if sc == i {
+								refs = true
+							}
+						}
+						if !refs || !mayBe[p] || seen[p] {
+							fail("pred-anytime-extra", fmt.Sprintf("concurrent Predecessors(%d) returned %v", i, ids))
+						}
+						seen[p] = true
+					}
+					if unk > 0 {
+						fail("pred-anytime-extra", fmt.Sprintf("concurrent Predecessors(%d) returned %d unknown descriptors", i, unk))
+					}
 				}
 			}
 			run.Count("raw-concurrent-mixed-block")
